@@ -8,6 +8,12 @@ and hand the episodes to TLC (spec/TraceDualCone.tla).
 * predicate episodes (Gaussian matrices, integer matrices with irrational lambda_max, episodes whose
   exact arithmetic would leave TLC's 32-bit range): the KKT conditions of the logged weights are
   evaluated in float64 by `kkt_predicate` (predicate level, DESIGN section 8).
+* presentations and histories (DualCone.tla, section of that name): both drivers work in SESSIONS of a few calls on
+  matrices of one shape; a call hands the matrix over in a new tensor or writes it in place (copy_) into the tensor
+  object of an earlier call of the session, calls a new aggregator object or the one already built with the same
+  arguments, and gives the preference vector as a float64 / float32 / int64 tensor (only dtypes that hold it
+  exactly).  Exact episodes log the object ids and what the object held before; TraceDualCone re-derives that
+  history (MALFORMED = machinery failure) and judges every call on the current content only.
 """
 
 from __future__ import annotations
@@ -24,7 +30,7 @@ import numpy as np
 import torch
 
 from .core import Ctx, MachineryError
-from .dualcone_replay import make, pref_tensor, rationalise
+from .dualcone_replay import DTYPES, EPS32, K32, Session, make, pref_given, pref_tensor, rationalise
 from .tlc import run_tlc
 
 INT_MAX = 2 ** 31 - 1
@@ -126,8 +132,8 @@ PREF_POOL = {
 }
 
 
-def _rand_int_matrix(rng: random.Random, m: int):
-    n = rng.randint(1, 4)
+def _rand_int_matrix(rng: random.Random, m: int, n: int | None = None):
+    n = n or rng.randint(1, 4)
     hi = 3 if m == 2 else 2
     shape = rng.random()
     if shape < 0.35 and m == 3 and n == 3:          # cyclic triple: circulant Gramian, integer spectrum
@@ -141,14 +147,73 @@ def _rand_int_matrix(rng: random.Random, m: int):
     return [[rng.randint(-hi, hi) for _ in range(n)] for _ in range(m)]
 
 
+def admissible_dtypes(u: list[Fraction]) -> list[str]:
+    """Mirror of DualCone.tla PrefPres (routing only: TraceDualCone re-decides it, WellFormed)."""
+    out = ["f64"]
+    if all(x.denominator & (x.denominator - 1) == 0 and abs(x.numerator) < 2 ** 24 for x in u):
+        out.append("f32")
+    if all(x.denominator == 1 for x in u):
+        out.append("i64")
+    return out
+
+
+class LoggedObjects:
+    """The tensor / aggregator objects of the exact driver, with the ids and contents that go into the log.  Object ids
+    are unique over the whole run; a new session forgets the objects (`reset`) but not the counters."""
+
+    def __init__(self):
+        self.next_obj = 1
+        self.next_aobj = 1
+        self.reset()
+
+    def reset(self):
+        self.tensors: dict = {}        # shape -> [obj id, tensor, content {"J", "e"}]
+        self.aggs: dict = {}           # args key -> (aobj id, aggregator)
+
+    def tensor(self, J0, e: int, want: str):
+        """-> (tensor object holding 2^e J0, obj id, actual mode, content before the write)"""
+        shape = (len(J0), len(J0[0]))
+        J = torch.tensor(J0, dtype=torch.float64) * 2.0 ** e
+        slot = self.tensors.get(shape)
+        if want == "reused" and slot is not None:
+            before = slot[2]
+            slot[1].copy_(J)
+            slot[2] = {"J": J0, "e": e}
+            return slot[1], slot[0], "reused", before
+        slot = [self.next_obj, J, {"J": J0, "e": e}]
+        self.next_obj += 1
+        self.tensors[shape] = slot
+        return slot[1], slot[0], "fresh", {"J": [], "e": 0}
+
+    def agg(self, name: str, u, pdt: str, a: int, q: int, want: str):
+        """-> (aggregator object, aobj id, actual mode)"""
+        key = (name, None if u is None else tuple(u), pdt, a, q)
+        slot = self.aggs.get(key)
+        if want == "reused" and slot is not None:
+            return slot[1], slot[0], "reused"
+        A = make(name, pref_given(u, pdt), 2.0 ** -a, 1.0 / q)
+        slot = (self.next_aobj, A)
+        self.next_aobj += 1
+        self.aggs[key] = slot
+        return A, slot[0], "fresh"
+
+
 def exact_episodes(rng: random.Random, count: int, stats: dict) -> list[dict]:
-    """Run the real code on random F2 instances; one dict per call (JSON-able, integers only)."""
+    """Run the real code on random F2 instances, in sessions of up to 6 calls on matrices of one shape (new / re-used
+    tensor and aggregator objects, preference vector in any admissible dtype); one dict per call (JSON-able)."""
     eps: list[dict] = []
     tries = 0
+    objs = LoggedObjects()
+    sid, left, shape, last = 0, 0, None, None
     while len(eps) + len(stats.get("raised", [])) < count and tries < 200 * count:
         tries += 1
-        m = rng.choice((2, 2, 3))
-        J0 = _rand_int_matrix(rng, m)
+        if left == 0:
+            sid += 1
+            left = rng.randint(1, 6)
+            shape, last = None, None
+            objs.reset()
+        m, n = shape if shape is not None else (rng.choice((2, 2, 3)), None)
+        J0 = _rand_int_matrix(rng, m, n)
         G = gram(J0)
         tr = sum(G[i][i] for i in range(m))
         if tr == 0:
@@ -161,62 +226,125 @@ def exact_episodes(rng: random.Random, count: int, stats: dict) -> list[dict]:
             continue                                  # keep mostly conflicting instances
         q = rng.choice((2, 4, 8, 16) if m == 2 else (2, 4))
         a = rng.choice((1, 2, 3, 4, 5))
+        agg = rng.choice(("upgrad", "dualproj"))
+        u = rng.choice(PREF_POOL[m])
+        pdt = "none" if u is None else rng.choice(admissible_dtypes(u))
+        if last is not None and rng.random() < 0.5:
+            q, a, agg, u, pdt = last                  # the arguments of the session's previous call (same aggregator object possible)
         # scale exponent around the threshold  lam * 4^(e + a) ~ 1
         k0 = -int(math.floor(math.log(lam, 4)))
         k = k0 + rng.choice((-2, -1, 0, 0, 1, 1, 2, 3))
         if abs(k) > 8 or lam * Fraction(4) ** k == 1:
             continue
-        agg = rng.choice(("upgrad", "dualproj"))
-        u = rng.choice(PREF_POOL[m])
         uu = u if u is not None else [Fraction(1, m)] * m
         if not tlc_safe(G, lam, 1, q, uu, agg):
             stats["routed_to_predicate_32bit"] = stats.get("routed_to_predicate_32bit", 0) + 1
             continue
         e = k - a
-        J = torch.tensor(J0, dtype=torch.float64) * 2.0 ** e
+        want_t, want_a = rng.choice(("fresh", "reused", "reused")), rng.choice(("fresh", "reused", "reused"))
+        prefix = [x for x in eps if x["sid"] == sid]
+        shape = (m, len(J0[0]))
+        last = (q, a, agg, u, pdt)
+        left -= 1
+        meta = {}
         try:
-            A = make(agg, pref_tensor(u), 2.0 ** -a, 1.0 / q)
+            A, aobj, amode = objs.agg(agg, u, pdt, a, q, want_a)
+            meta = {"aobj": aobj, "amode": amode}
+            J, obj, tmode, before = objs.tensor(J0, e, want_t)
+            meta |= {"obj": obj, "tmode": tmode, "before": before}
             w = A.weighting(J).tolist()
             out = A(J).tolist()
         except Exception as ex:                                               # noqa: BLE001
             stats.setdefault("raised", []).append(
-                {"agg": agg, "J0": J0, "e": e, "a": a, "q": q, "u": [str(x) for x in uu], "exc": f"{type(ex).__name__}: {str(ex)[:150]}"})
+                {"agg": agg, "J0": J0, "e": e, "a": a, "q": q, "u": [str(x) for x in uu], "pdt": pdt, "default_pref": u is None,
+                 "want": [want_t, want_a], "prefix": prefix, "exc": f"{type(ex).__name__}: {str(ex)[:150]}"})
+            left = 0                                  # the objects of this session are in an unknown state: start anew
             continue
         wr = [rationalise(x) for x in w]
-        eps.append({"ep": len(eps) + 1, "J": J0, "e": e, "a": a, "reg": [1, q],
-                    "u": [[x.numerator, x.denominator] for x in uu], "agg": agg,
+        eps.append({"ep": len(eps) + 1, "sid": sid, "J": J0, "e": e, "a": a, "reg": [1, q],
+                    "u": [[x.numerator, x.denominator] for x in uu], "agg": agg, "pdt": pdt,
                     "w": [] if any(x is None for x in wr) else wr,
-                    "w_float": w, "out_float": out, "default_pref": u is None})
+                    "w_float": w, "out_float": out, "default_pref": u is None} | meta)
+    for k_, f_ in (("episodes_tensor_reused", lambda x: x["tmode"] == "reused"), ("episodes_agg_reused", lambda x: x["amode"] == "reused"),
+                   ("episodes_pref_f32", lambda x: x["pdt"] == "f32"), ("episodes_pref_i64", lambda x: x["pdt"] == "i64")):
+        stats[k_] = sum(1 for x in eps if f_(x))
     return eps
 
 
 def report_raised(ctx: Ctx, stats: dict) -> None:
     for r in stats.get("raised", []):
         j = ";".join(",".join(str(x) for x in row) for row in r["J0"])
-        ctx.violation(f"trace:{r['agg']}:J=[{j}]:e={r['e']}:a={r['a']}:reg=1/{r['q']}:raised",
-                      f"{r['agg']}(pref={r['u']}, norm_eps=2^-{r['a']}, reg_eps=1/{r['q']}) on J = 2^{r['e']} * {r['J0']} raised "
-                      f"{r['exc']}", {"kind": "raised", **r})
+        hist = f" after {len(r['prefix'])} earlier call(s) of the session" if r.get("prefix") else ""
+        ctx.violation(f"trace:{r['agg']}:J=[{j}]:e={r['e']}:a={r['a']}:reg=1/{r['q']}:pref={r.get('pdt', 'f64')}:raised",
+                      f"{r['agg']}(pref={r['u']} given as {r.get('pdt', 'f64')}, norm_eps=2^-{r['a']}, reg_eps=1/{r['q']}) on J = 2^{r['e']} * "
+                      f"{r['J0']}{hist} raised {r['exc']}", {"kind": "raised", **r})
     stats["raised"] = len(stats.get("raised", []))
 
 
+def _norm_episode(e: dict, i: int) -> dict:
+    """Defaults for logs written before presentations / histories were recorded (old replay files)."""
+    return {"pdt": "none" if e.get("default_pref") else "f64", "obj": 10 ** 6 + i, "tmode": "fresh", "before": {"J": [], "e": 0},
+            "aobj": 10 ** 6 + i, "amode": "fresh", "sid": 0} | e
+
+
+class _Rerun:
+    """Re-execution of logged episodes on the current code, honouring the logged object identities."""
+
+    def __init__(self):
+        self.tensors: dict = {}
+        self.aggs: dict = {}
+
+    def call(self, e: dict):
+        uu = [Fraction(a, b) for a, b in e["u"]]
+        u = None if e.get("default_pref") else uu
+        if e["amode"] == "reused" and e["aobj"] in self.aggs:
+            A = self.aggs[e["aobj"]]
+        else:
+            A = self.aggs[e["aobj"]] = make(e["agg"], pref_given(u, e["pdt"]), 2.0 ** -e["a"], e["reg"][0] / e["reg"][1])
+        J = torch.tensor(e["J"], dtype=torch.float64) * 2.0 ** e["e"]
+        if e["tmode"] == "reused" and e["obj"] in self.tensors:
+            self.tensors[e["obj"]].copy_(J)
+            J = self.tensors[e["obj"]]
+        else:
+            self.tensors[e["obj"]] = J
+        return A.weighting(J).tolist(), A(J).tolist()
+
+
+def rerun_episodes(episodes: list[dict]) -> list[dict]:
+    """Re-execute logged episodes (a session prefix) in order on the current code (used by --replay)."""
+    rr = _Rerun()
+    out = []
+    for i, e in enumerate(episodes):
+        e = _norm_episode(e, i)
+        w, o = rr.call(e)
+        wr = [rationalise(x) for x in w]
+        out.append(e | {"ep": i + 1, "w": [] if any(x is None for x in wr) else wr, "w_float": w, "out_float": o})
+    return out
+
+
 def rerun_episode(e: dict) -> dict:
-    """Re-execute the call of a logged episode on the current code (used by --replay)."""
-    uu = [Fraction(a, b) for a, b in e["u"]]
-    u = None if e.get("default_pref") else uu
-    A = make(e["agg"], pref_tensor(u), 2.0 ** -e["a"], e["reg"][0] / e["reg"][1])
-    J = torch.tensor(e["J"], dtype=torch.float64) * 2.0 ** e["e"]
-    w = A.weighting(J).tolist()
-    wr = [rationalise(x) for x in w]
-    return e | {"ep": 1, "w": [] if any(x is None for x in wr) else wr, "w_float": w, "out_float": A(J).tolist()}
+    """Re-execute the call of ONE logged episode alone, on new objects (C04's replay)."""
+    return rerun_episodes([e | {"tmode": "fresh", "amode": "fresh", "before": {"J": [], "e": 0}}])[0]
 
 
 def replay_raised(ctx: Ctx, p: dict) -> None:
-    u = [Fraction(x) for x in p["u"]]
-    J = torch.tensor(p["J0"], dtype=torch.float64) * 2.0 ** p["e"]
+    rr = _Rerun()
+    for i, e in enumerate(p.get("prefix", [])):
+        try:
+            rr.call(_norm_episode(e, i))
+        except Exception:                                                     # noqa: BLE001
+            pass
+    want = p.get("want", ["fresh", "fresh"])
+    same = [e for e in p.get("prefix", []) if (len(e["J"]), len(e["J"][0])) == (len(p["J0"]), len(p["J0"][0]))]
+    e = {"J": p["J0"], "e": p["e"], "a": p["a"], "reg": [1, p["q"]], "agg": p["agg"], "pdt": p.get("pdt", "f64"),
+         "u": [[Fraction(x).numerator, Fraction(x).denominator] for x in p["u"]], "default_pref": p.get("default_pref", False),
+         "tmode": want[0] if same else "fresh", "obj": same[-1]["obj"] if same else -1, "amode": "fresh", "aobj": -1}
+    if want[1] == "reused":
+        for x in p.get("prefix", []):
+            if all(x[k] == e[k] for k in ("agg", "u", "pdt", "a", "reg")):
+                e |= {"amode": "reused", "aobj": x["aobj"]}
     try:
-        A = make(p["agg"], pref_tensor(u), 2.0 ** -p["a"], 1.0 / p["q"])
-        A.weighting(J)
-        A(J)
+        rr.call(e)
     except Exception as ex:                                                   # noqa: BLE001
         ctx.violation("trace:raised:replay", f"{p['agg']} raised {type(ex).__name__}: {str(ex)[:150]}", p)
 
@@ -228,13 +356,20 @@ def validate_exact(ctx: Ctx, episodes: list[dict], pid: str) -> dict:
         raise MachineryError("no exact episode generated")
     with tempfile.TemporaryDirectory(prefix="verif_dualcone_") as d:
         path = os.path.join(d, "episodes.json")
-        slim = [{k: e[k] for k in ("ep", "J", "e", "a", "reg", "u", "agg", "w")} for e in episodes]
+        episodes = [_norm_episode(e, i) for i, e in enumerate(episodes)]
+        slim = [{k: e[k] for k in ("ep", "J", "e", "a", "reg", "u", "agg", "w", "pdt", "obj", "tmode", "before", "aobj", "amode")}
+                for e in episodes]
         with open(path, "w") as f:
             json.dump(slim, f)
         res = run_tlc("TraceDualCone", "Trace_DualCone.cfg", workers=1, env={"TRACE_FILE": path}, timeout=900)
     ctx.add_tlc(res)
+    if res.error is not None:
+        raise MachineryError(f"TLC machinery failure on TraceDualCone:\n{res.error[:2000]}")
     if res.violated:
         raise MachineryError(f"trace spec did not consume the log: {res.violated}\n{res.cex[:1500]}")
+    if res.prints.get("MALFORMED"):
+        raise MachineryError(f"TraceDualCone: the logged presentation / object history of episodes {res.prints['MALFORMED'][:5]} is not "
+                             f"the one the specification reconstructs (driver bookkeeping)")
     summ = res.prints.get("SUMMARY", [None])[0]
     if not summ or summ["episodes"] != len(episodes) or \
             summ["accepted"] + summ["rejected"] + summ["skipped"] != len(episodes):
@@ -249,11 +384,20 @@ def validate_exact(ctx: Ctx, episodes: list[dict], pid: str) -> dict:
             raise MachineryError(f"rationalisation artefact: logged {e['w']} for floats {e['w_float']} but exact {rj['expected']}")
         j = ";".join(",".join(str(x) for x in r) for r in e["J"])
         key = f"trace:{e['agg']}:J=[{j}]:e={e['e']}:a={e['a']}:reg=1/{e['reg'][1]}:u={e['u']}"
-        desc = (f"{e['agg']}(pref={e['u']}, norm_eps=2^-{e['a']}, reg_eps=1/{e['reg'][1]}) on J = 2^{e['e']} * {e['J']}: "
-                f"logged weights {e['w_float']}")
+        if e["pdt"] not in ("none", "f64"):
+            key += f":pref={e['pdt']}"
+        prefix = [x for x in episodes if x["sid"] == e["sid"] and x["ep"] <= e["ep"]] if e["sid"] else [e]
+        hist = ""
+        if e["tmode"] == "reused" or e["amode"] == "reused":
+            key += f":tensor_{e['tmode']}:agg_{e['amode']}"
+            hist = (f" (call {len(prefix)} of its session: tensor object {e['tmode']}" +
+                    (f", it held 2^{e['before']['e']} * {e['before']['J']} before the in-place write" if e["tmode"] == "reused" else "") +
+                    f"; aggregator object {e['amode']})")
+        desc = (f"{e['agg']}(pref={e['u']} given as {e['pdt']}, norm_eps=2^-{e['a']}, reg_eps=1/{e['reg'][1]}) on J = 2^{e['e']} * {e['J']}"
+                f"{hist}: logged weights {e['w_float']}")
         if pid == "C03":
             ctx.violation(key, f"{desc} rejected by DualCone ({rj['clause']}); exact weights {rj['expected']}",
-                          {"kind": "trace", "episode": e, "clause": rj["clause"]})
+                          {"kind": "trace", "episode": e, "episodes": prefix, "clause": rj["clause"]})
             continue
         # C04 only demands the cone constraint (G w)_i >= -reg_eps s^2 w_i of the logged weights
         cone = rj["cone"]
@@ -279,8 +423,16 @@ def validate_exact(ctx: Ctx, episodes: list[dict], pid: str) -> dict:
 
 # ---------------------------------------------------------------- predicate level (float64)
 
-def kkt_predicate(J: torch.Tensor, u: list[float], norm_eps: float, reg_eps: float, w: list[float]) -> str | None:
-    """KKT conditions of min v^T (G/s^2 + reg_eps I) v, v >= u at the logged weights, in float64.
+def _wtol(reg_eps: float, f32: bool) -> float:
+    """Relative allowance on the weights: float64 - rounding of the QP solve grows with the conditioning
+    (1 + reg_eps) / reg_eps of the regularised Gramian; float32 matrices - the perturbation bound of
+    dualcone_replay.eval_c03, (K32 eps32 / reg_eps + 2 eps32)."""
+    return (K32 * EPS32 / reg_eps + 2 * EPS32) if f32 else max(1e-9, 1e-13 / reg_eps)
+
+
+def kkt_predicate(J: torch.Tensor, u: list[float], norm_eps: float, reg_eps: float, w: list[float], f32: bool = False) -> str | None:
+    """KKT conditions of min v^T (G/s^2 + reg_eps I) v, v >= u at the logged weights, in float64 (J: the float64
+    image of the matrix that was given; f32: it was given, and the weights were computed, in float32).
     Returns the failing clause or None."""
     G = (J @ J.T).numpy()
     s2 = float(np.linalg.eigvalsh(G)[-1])
@@ -288,85 +440,132 @@ def kkt_predicate(J: torch.Tensor, u: list[float], norm_eps: float, reg_eps: flo
     wv = np.array(w)
     uv = np.array(u)
     scale = 1.0 + float(np.abs(wv).sum())
-    if math.sqrt(max(s2, 0.0)) < norm_eps * (1 - 1e-9):
-        return None if np.allclose(wv, uv, rtol=1e-12, atol=1e-12) else "below_norm_eps_weights_must_be_the_preference_vector"
-    if math.sqrt(max(s2, 0.0)) < norm_eps * (1 + 1e-9):
+    margin = 1e-4 if f32 else 1e-9
+    if math.sqrt(max(s2, 0.0)) < norm_eps * (1 - margin):
+        ok = np.allclose(wv, uv, rtol=2 * EPS32, atol=2 * EPS32) if f32 else np.allclose(wv, uv, rtol=1e-12, atol=1e-12)
+        return None if ok else "below_norm_eps_weights_must_be_the_preference_vector"
+    if math.sqrt(max(s2, 0.0)) < norm_eps * (1 + margin):
         return None
     A = G / s2 + reg_eps * np.eye(m)
     r = A @ wv
-    # rounding of the QP solve grows with the conditioning (1 + reg_eps) / reg_eps of the regularised Gramian
-    tol = max(1e-9, 1e-13 / reg_eps) * scale
+    tol = _wtol(reg_eps, f32) * scale
     if (wv < uv - tol).any():
         return "w_below_preference_vector"
-    if (r < -tol).any():
+    if (r < -2 * tol).any():
         return "regularised_cone_constraint_violated"
-    if (np.abs((wv - uv) * r) > tol * scale).any():
+    if (np.abs((wv - uv) * r) > 2 * tol * scale).any():
         return "complementary_slackness_violated"
     return None
 
 
+def _pred_matrix(rng: random.Random, g: torch.Generator, kind: str, m: int, n: int) -> torch.Tensor:
+    if kind == "gauss":
+        J = torch.randn(m, n, dtype=torch.float64, generator=g)
+    elif kind == "int":
+        J = torch.randint(-3, 4, (m, n), generator=g).to(torch.float64)
+    elif kind == "lowrank":
+        J = torch.randn(m, 1, dtype=torch.float64, generator=g) @ torch.randn(1, n, dtype=torch.float64, generator=g)
+    else:
+        J = torch.randn(m, n, dtype=torch.float64, generator=g)
+        J[1] = -J[0] * (1 + 1e-3 * rng.random()) + 1e-3 * torch.randn(n, dtype=torch.float64, generator=g)
+    return J * 10.0 ** rng.choice((-6, -3, 0, 0, 3, 6))
+
+
+def _pred_pref(u: list[float], pdt: str):
+    return torch.tensor([int(x) for x in u], dtype=torch.int64) if pdt == "i64" else torch.tensor(u, dtype=DTYPES[pdt])
+
+
+def judge_predicate_call(call: dict, sess: Session) -> list[tuple[str, str]]:
+    """One predicate-level call (DualProj and UPGrad on the same matrix, as the call presents it: matrix dtype,
+    preference dtype, new / re-used tensor and aggregator objects of `sess`) -> [(key suffix, what)]."""
+    mdt, pdt, u, ne, rg = call["mdt"], call["pdt"], call["u"], call["norm_eps"], call["reg_eps"]
+    f32 = mdt == "f32"
+    m = len(u)
+    Jg = torch.tensor(call["J"], dtype=DTYPES[mdt])             # the values given (float32: already rounded)
+    J64 = Jg.to(torch.float64)
+    desc = (f"(pref={u} given as {pdt}, norm_eps={ne}, reg_eps={rg}) on the {mdt} matrix {call['J']} "
+            f"[tensor object {call['tmode']}, aggregator object {call['amode']}]")
+    uf = [Fraction(x) for x in u]
+    try:
+        J = sess.tensor(Jg, call["tmode"])
+        wD = sess.agg("dualproj", uf, pdt, ne, rg, call["amode"]).weighting(J).to(torch.float64)
+        wU = sess.agg("upgrad", uf, pdt, ne, rg, call["amode"]).weighting(J).to(torch.float64)
+    except Exception as ex:                                                   # noqa: BLE001
+        return [(":raised", f"UPGrad/DualProj{desc} raised {type(ex).__name__}: {str(ex)[:150]}")]
+    out = []
+    clause = kkt_predicate(J64, u, ne, rg, wD.tolist(), f32)
+    if clause:
+        out.append((":dualproj", f"DualProj{desc}: weights {wD.tolist()} break the KKT system of the regularised projection ({clause})"))
+    rows = torch.zeros(m, dtype=torch.float64)
+    bad = None
+    for i in range(m):
+        ui = [u[j] if j == i else 0.0 for j in range(m)]
+        try:
+            wi = make("dualproj", torch.tensor(ui, dtype=DTYPES[mdt]), ne, rg).weighting(Jg.clone()).to(torch.float64)
+        except Exception as ex:                                               # noqa: BLE001
+            out.append((f":dualproj:raised:{i}", f"DualProj(pref={ui}, norm_eps={ne}, reg_eps={rg}) raised {type(ex).__name__}: "
+                                                 f"{str(ex)[:150]} on {call['J']}"))
+            bad = "raised"
+            continue
+        bad = bad or kkt_predicate(J64, ui, ne, rg, wi.tolist(), f32)
+        rows += wi
+    tolU = (2 * m * _wtol(rg, True) if f32 else 1e-9) * (1 + float(rows.abs().sum()))
+    if bad is None and float((wU - rows).abs().max()) > tolU:
+        out.append((":upgrad", f"UPGrad{desc}: weights {wU.tolist()} are not the sum of the projections of u_i e_i = {rows.tolist()}"))
+    return out
+
+
+def replay_predicate(ctx: Ctx, p: dict) -> None:
+    calls = p["calls"] if "calls" in p else [{"J": p["J"], "u": p["u"], "norm_eps": p["norm_eps"], "reg_eps": p["reg_eps"],
+                                              "mdt": "f64", "pdt": "f64", "tmode": "fresh", "amode": "fresh"}]
+    sess = Session()
+    for i, c in enumerate(calls):
+        got = judge_predicate_call(c, sess)
+        if i == len(calls) - 1:
+            for suffix, what in got:
+                ctx.violation("pred:replay" + suffix, what, p)
+
+
 def predicate_episodes(ctx: Ctx, rng: random.Random, count: int, pid: str) -> int:
-    """Gaussian / general integer matrices, m <= 5: DualProj by its KKT system, UPGrad as the sum of the
-    KKT-validated projections of u_i e_i."""
+    """Gaussian / general integer matrices, m <= 5: DualProj by its KKT system, UPGrad as the sum of the KKT-validated
+    projections of u_i e_i.  Sessions of 1..4 calls on matrices of one shape and dtype (float64, or float32 with
+    reg_eps >= 1e-2 where the float32 allowance is meaningful), tensor / aggregator objects new or re-used, the
+    preference vector given as float64 / float32 / int64 (entries in {0, 1/2, 1, 2}: exact in every admissible dtype)."""
     done = 0
     g = torch.Generator().manual_seed(rng.randrange(2 ** 31))
-    for _ in range(count):
+    while done < count:
         m = rng.randint(2, 5)
         n = rng.randint(1, 8)
-        kind = rng.choice(("gauss", "int", "lowrank", "antiparallel"))
-        if kind == "gauss":
-            J = torch.randn(m, n, dtype=torch.float64, generator=g)
-        elif kind == "int":
-            J = torch.randint(-3, 4, (m, n), generator=g).to(torch.float64)
-        elif kind == "lowrank":
-            J = torch.randn(m, 1, dtype=torch.float64, generator=g) @ torch.randn(1, n, dtype=torch.float64, generator=g)
-        else:
-            J = torch.randn(m, n, dtype=torch.float64, generator=g)
-            J[1] = -J[0] * (1 + 1e-3 * rng.random()) + 1e-3 * torch.randn(n, dtype=torch.float64, generator=g)
-        J = J * 10.0 ** rng.choice((-6, -3, 0, 0, 3, 6))
-        if float(J.abs().max()) == 0.0:
-            continue
-        ne, rg = rng.choice(((1e-4, 1e-4), (1e-4, 1e-4), (1e-6, 1e-2), (1e-2, 1e-6), (0.5, 0.125)))
-        u = [rng.choice((0.0, 0.5, 1.0, 2.0)) for _ in range(m)]
-        if sum(u) == 0:
-            u[0] = 1.0
-        ut = torch.tensor(u, dtype=torch.float64)
-        try:
-            wD = make("dualproj", ut, ne, rg).weighting(J).tolist()
-            make("upgrad", ut, ne, rg).weighting(J)
-        except Exception as ex:                                               # noqa: BLE001
-            ctx.violation(f"pred:{kind}:m={m}:n={n}:seed={ctx.seed}:i={done}:raised",
-                          f"UPGrad/DualProj(pref={u}, norm_eps={ne}, reg_eps={rg}) raised {type(ex).__name__}: {str(ex)[:150]} "
-                          f"on {J.tolist()}", {"kind": "pred", "J": J.tolist(), "u": u, "norm_eps": ne, "reg_eps": rg, "agg": "dualproj"})
-            done += 1
-            continue
-        clause = kkt_predicate(J, u, ne, rg, wD)
-        key = f"pred:{kind}:m={m}:n={n}:seed={ctx.seed}:i={done}"
-        if clause:
-            ctx.violation(key + ":dualproj", f"DualProj(pref={u}, norm_eps={ne}, reg_eps={rg}) on {J.tolist()}: weights {wD} "
-                                             f"break the KKT system of the regularised projection ({clause})",
-                          {"kind": "pred", "J": J.tolist(), "u": u, "norm_eps": ne, "reg_eps": rg, "agg": "dualproj"})
-        wU = make("upgrad", ut, ne, rg).weighting(J)
-        rows = torch.zeros(m, dtype=torch.float64)
-        bad = None
-        for i in range(m):
-            ui = [u[j] if j == i else 0.0 for j in range(m)]
-            try:
-                wi = make("dualproj", torch.tensor(ui, dtype=torch.float64), ne, rg).weighting(J)
-            except Exception as ex:                                           # noqa: BLE001
-                ctx.violation(key + f":dualproj:raised:{i}",
-                              f"DualProj(pref={ui}, norm_eps={ne}, reg_eps={rg}) raised {type(ex).__name__}: {str(ex)[:150]} on {J.tolist()}",
-                              {"kind": "pred", "J": J.tolist(), "u": ui, "norm_eps": ne, "reg_eps": rg, "agg": "dualproj"})
-                bad = "raised"
+        mdt = "f32" if rng.random() < 0.25 else "f64"
+        sess = Session()
+        calls: list[dict] = []
+        for _ in range(rng.randint(1, 4)):
+            if done >= count:
+                break
+            kind = rng.choice(("gauss", "int", "lowrank", "antiparallel"))
+            J = _pred_matrix(rng, g, kind, m, n).to(DTYPES[mdt])
+            if float(J.abs().max()) == 0.0:
                 continue
-            bad = bad or kkt_predicate(J, ui, ne, rg, wi.tolist())
-            rows += wi
-        if bad is None and float((wU - rows).abs().max()) > 1e-9 * (1 + float(rows.abs().sum())):
-            ctx.violation(key + ":upgrad", f"UPGrad(pref={u}, norm_eps={ne}, reg_eps={rg}) on {J.tolist()}: weights {wU.tolist()} "
-                                           f"are not the sum of the projections of u_i e_i = {rows.tolist()}",
-                          {"kind": "pred", "J": J.tolist(), "u": u, "norm_eps": ne, "reg_eps": rg, "agg": "upgrad"})
-        done += 1
-        ctx.evaluations += 2 + m
+            if mdt == "f32":
+                ne, rg = rng.choice(((1e-6, 1e-2), (0.5, 0.125), (1e-4, 0.5)))
+            else:
+                ne, rg = rng.choice(((1e-4, 1e-4), (1e-4, 1e-4), (1e-6, 1e-2), (1e-2, 1e-6), (0.5, 0.125)))
+            u = [rng.choice((0.0, 0.5, 1.0, 2.0)) for _ in range(m)]
+            if sum(u) == 0:
+                u[0] = 1.0
+            pdt = rng.choice(["f64", "f32"] + (["i64"] if all(x == int(x) for x in u) else []))
+            call = {"J": J.tolist(), "u": u, "norm_eps": ne, "reg_eps": rg, "mdt": mdt, "pdt": pdt,
+                    "tmode": rng.choice(("fresh", "reused")), "amode": rng.choice(("fresh", "reused"))}
+            calls.append(call)
+            key = f"pred:{kind}:m={m}:n={n}:{mdt}:pref={pdt}:seed={ctx.seed}:i={done}"
+            for suffix, what in judge_predicate_call(call, sess):
+                ctx.violation(key + suffix, what + (f" (call {len(calls)} of its session)" if len(calls) > 1 else ""),
+                              {"kind": "pred", "calls": list(calls)})
+            ctx.count(f"predicate_matrix_{mdt}_pref_{pdt}")
+            if len(calls) > 1 and call["tmode"] == "reused":
+                ctx.count("predicate_tensor_reused")
+            done += 1
+            ctx.evaluations += 2 + m
     return done
 
 
